@@ -94,6 +94,13 @@ impl Builtins {
         Ok(contents.into())
     }
 
+    fn get_file_as_bytes(&self, path: &str) -> Result<Vec<u8>, Error> {
+        let mut f = File::open(path)?;
+        let mut contents = Vec::new();
+        f.read_to_end(&mut contents)?;
+        Ok(contents)
+    }
+
     fn import<O, E>(
         &mut self,
         stack: &mut Vec<(Rc<Value>, Position)>,
@@ -203,12 +210,19 @@ impl Builtins {
             stack.push((
                 Rc::new(match env.borrow().importer_registry.get_importer(&typ) {
                     Some(importer) => {
-                        let contents = self.get_file_as_string(&path)?;
-                        if contents.is_empty() {
+                        // The base64 importers encode any bytes, text or not,
+                        // and the encoding of no bytes is the empty string.
+                        let is_b64 = typ.as_ref() == "b64" || typ.as_ref() == "b64urlsafe";
+                        let contents = if is_b64 {
+                            self.get_file_as_bytes(&path)?
+                        } else {
+                            self.get_file_as_string(&path)?.as_bytes().to_vec()
+                        };
+                        if contents.is_empty() && !is_b64 {
                             eprintln!("including an empty file. Use NULL as the result");
                             P(Empty)
                         } else {
-                            match importer.import(contents.as_bytes()) {
+                            match importer.import(&contents) {
                                 Ok(v) => v.into(),
                                 Err(e) => return Err(Error::new(format!("{}", e).into(), pos)),
                             }
